@@ -176,7 +176,7 @@ def r2_index(program, rep, bitname):
     if len(bd) != 1 or len(sd) != 1:
         raise AnalysisError("sub-block index definitions not found")
     # evaluate add_core's expression in get_region_for_chip's name space
-    e = copy.deepcopy(sd[0].value)
+    e = ast.parse(unparse(sd[0].value), mode="eval").body
 
     class Ren(ast.NodeTransformer):
         def visit_Attribute(self, node):
